@@ -6,6 +6,13 @@ for l in open(sys.argv[1]):
     m = re.match(r'(C\d+[a-z]): rc=(\d) violations=(\d+) proof-lost=(\d+) \|\s*(.*)', l)
     if m:
         res[m.group(1)] = m.groups()[1:]
+detail = {}
+dp = sys.argv[2] if len(sys.argv) > 2 else None
+if dp and os.path.exists(dp):
+    for l in open(dp):
+        m = re.match(r'(C\d+[a-z]): VERUS\[(.*?)\] BOUNDED\[(.*)\]', l)
+        if m:
+            detail[m.group(1)] = (m.group(2).split(), m.group(3))
 rows = []
 caught = 0
 for d in sorted(os.listdir('/verif/seeded')):
@@ -24,6 +31,16 @@ for d in sorted(os.listdir('/verif/seeded')):
         by = 'bounded `%s`' % m.group(2) if m else 'bounded'
     else:
         by = '**missed**'
+    if d in detail:
+        obls, bnd = detail[d]
+        parts = []
+        if obls:
+            parts.append('Verus: ' + ', '.join('`%s` (%s)' % (o.split('@')[0], o.split('@')[1].split('::')[-1]) for o in obls[:3]))
+        mb = re.match(r'\s*(\S+) (\S+) input=', bnd)
+        if mb:
+            parts.append('bounded: `%s`' % mb.group(2))
+        if parts:
+            by = '; '.join(parts)
     if lost != '0':
         by += ' (proof lost for the changed function)'
     if rc == '1':
@@ -31,6 +48,6 @@ for d in sorted(os.listdir('/verif/seeded')):
     rows.append('| %s | %s | %s | %s |' % (d, ', '.join(f.replace('src/', '') for f in files), 'yes' if rc == '1' else 'NO', by))
 print('caught %d of %d' % (caught, len(rows)))
 print()
-print('| id | file(s) changed | caught by its property\'s quick check | first reported clause |')
+print('| id | file(s) changed | caught by its property\'s quick check | failed obligations / clauses |')
 print('|---|---|---|---|')
 print('\n'.join(rows))
